@@ -17,7 +17,7 @@ META = dict(
     evaluations_counter="cases",
     min={"backward_passes": 400, "grad_checks:input": 400, "grad_checks:weight": 200, "grad_checks:bias": 100,
          "frozen_checks": 80, "weight_updates": 150, "noncontiguous_upstream": 60, "quantized_inputs": 80,
-         "ste_checks": 300, "ste_checks:qbits": 80, "ste_checks:activation": 60, "inputs_without_grad": 60},
+         "ste_checks": 300, "ste_checks:qbits": 80, "ste_checks:activation": 60, "inputs_without_grad": 60, "eval_mode_modules": 100},
     anchors=["tensor/qtensor_func.py:QTensorLinear.forward", "tensor/qtensor_func.py:QTensorLinear.backward",
              "tensor/quantizers/symmetric.py:SymmetricQuantizer.backward", "nn/qmodule.py:QModuleMixin.qweight",
              "tensor/quantizers/affine.py:AffineQuantizer.backward", "tensor/qbits/qbits.py:QBitsDequantizer.backward",
@@ -227,6 +227,10 @@ def run(ctx):
                         model(torch.from_numpy(r.standard_normal(xshape)).to(wd))
                 if frozen:
                     oq.freeze(model)
+                if r.random() < 0.4:
+                    # eval mode is not no_grad: fine-tuning with dropout / batch-norm switched off, sensitivity analyses
+                    model.eval()
+                    ctx.count("eval_mode_modules")
             except Exception as e:
                 ctx.violation(dict(sig0, kind="setup_raises", exc=type(e).__name__), dict(desc=desc, msg=str(e)[:200]))
                 continue
